@@ -771,6 +771,19 @@ func (c05) Exec(script interface{}, c *core.Ctx) {
 		if !d.ro("packetWriter.Write", cp, func() { w.Write(cp) }) {
 			return
 		}
+		// chunks that are not packet aligned, cut from one larger buffer the caller re-uses:
+		// whatever Write does with them, the buffer (also beyond the chunk) is the caller's
+		if len(st) >= 600 {
+			big := append([]byte(nil), st[:600]...)
+			a := 100 + s.Stamp%150
+			if !d.ro("packetWriter.Write(unaligned)", big, func() {
+				w.Write(big[:a])
+				w.Write(big[a : a+188])
+				w.Write(big[:188])
+			}) {
+				return
+			}
+		}
 	}
 	if clean {
 		// on an undamaged stream the pipeline must have decoded its tables
